@@ -410,15 +410,63 @@ func runC06(c c06Case) *vlib.Outcome {
 			o.Fail("OPEN", "cannot create location: %v", err)
 			return o
 		}
+		faultAt := -1
 		for i, x := range ops {
+			m0 := w.model["L"].clone()
 			err, _ := runOp(w, x)
-			if fs.fired {
+			if fs.fired && faultAt < 0 {
+				faultAt = i
 				o.Label("fault-point")
 				if err == nil {
 					o.Fail("FAULT_SWALLOWED", "%s: storage call %d (%s) failed inside op %d %s but the operation reported success", tag, j, fs.log[j-1], i, opString(x))
+					break
 				}
-				break
+				if x.K == "reload" || x.K == "clear" {
+					break // nothing left to say about the location
+				}
+				// The operation failed: what it names is unspecified
+				// from here on (until an acknowledged operation defines
+				// it again); everything else goes on as before.
+				ml := w.model["L"]
+				m1 := m0.clone()
+				now := nowSecs()
+				w.applyModel(m1, x, "", now, now)
+				for _, id := range universeOf(m0, m1) {
+					i0, h0 := m0.Items[id]
+					i1, h1 := m1.Items[id]
+					if h0 != h1 || (h0 && h1 && !equalStored(widen(i0.Stored), widen(i1.Stored).(M))) || m1.Unspec[id] != m0.Unspec[id] {
+						ml.markUnspecClosure(id)
+					}
+				}
+				if x.Id != "" {
+					ml.markUnspecClosure(x.Id)
+				}
+				if x.Id == "" && (x.K == "addFact" || x.K == "addRule") {
+					break // an id nobody knows may or may not exist now
+				}
+				continue
 			}
+		}
+		if faultAt >= 0 && faultAt < len(ops)-1 && !o.Failed() && ops[faultAt].K != "reload" && ops[faultAt].K != "clear" && !(ops[faultAt].Id == "" && (ops[faultAt].K == "addFact" || ops[faultAt].K == "addRule")) {
+			// after the failed operation the location went on: what was
+			// acknowledged since must be there, live and after a reload
+			when := fmt.Sprintf("%s after storage call %d (%s) failed inside op %d %s and the remaining operations ran", tag, j, fs.log[j-1], faultAt, opString(ops[faultAt]))
+			ids := universeOf(w.model["L"])
+			for _, id := range ids {
+				w.checkGet("L", id, when+" (live)")
+			}
+			if !o.Failed() {
+				w2 := newWorld(c.Kind, h.inner, o)
+				w2.model["L"] = w.model["L"]
+				if _, err := w2.open("L"); err != nil {
+					o.Fail("RELOAD", "%s: reload failed: %v", when, err)
+				} else {
+					for _, id := range ids {
+						w2.checkGet("L", id, when+" (rebuilt from storage)")
+					}
+				}
+			}
+			o.Label("continued-after-fault")
 		}
 		h.close()
 		if o.Failed() {
